@@ -42,7 +42,14 @@ def one_record(c, st, m, lanes, stim, reuse, strip, inj_line, inj_vals):
                 new = bp[:view.shape[0]].copy()
                 new[:, -1] = (new[:, -1] & ~keep) | (view[:, -1] & keep)
                 view[...] = new
-        s = lsim.run_logic(c, m, lanes, stim, reuse, strip, cb, True)
+        fn = cb
+        if (inj_line + lanes + m) % 3 == 0:
+            class Recorder(list):             # a callable OBJECT that is falsy while empty (any callable is a callback)
+                def __call__(self, line, view):
+                    self.append(operator.index(line))
+                    return cb(line, view)
+            fn = Recorder()
+        s = lsim.run_logic(c, m, lanes, stim, reuse, strip, fn, True)
         rec['resp'] = lsim.codes(s, 1, lanes)
         # the same simulator instance, propagated once more without any callback
         s.c_prop()
